@@ -98,7 +98,8 @@ var c04SnapSeam = []string{
 }
 
 func init() {
-	c04Scenarios = append(c04Scenarios,
+	// these scenarios are small (delay-bounded or two threads) and come first, so that a cut run has completed them
+	added := []c04Scenario{
 		// background snapshot tick || ForceFlush || reader. Preload: one flushed file and a non-empty memtable.
 		c04Scenario{Name: "S6_snap_flush_read", Preload: []string{"Wa", "F", "We"}, Setup: c04SnapSetup,
 			Seam: &c04Seam{Funcs: c04SnapSeam, FreeQuick: 1, FreeDeep: 2},
@@ -119,12 +120,25 @@ func init() {
 					"3writer": func() { l.write(v, 10, c04Gen("Wc", 10)) },
 				}
 			}},
-		// DropMeasurement || reader || writer, shard stays open (oracle leniency: c04Log.dropStartedBefore)
-		c04Scenario{Name: "S8_drop_read_write", Preload: []string{"We", "F", "Wa"},
+		// DropMeasurement(m) || reader(m) || writer(m), shard stays open. Oracle leniency (c04Log.dropStartedBefore):
+		// from the start of the drop on, rows of m may be absent and a query of m may be refused; what IS returned must
+		// have been written; no panic, no deadlock.
+		c04Scenario{Name: "S8a_drop_read_write", Preload: []string{"We", "F", "Wa"},
 			Seam: &c04Seam{FreeQuick: 1, FreeDeep: 2},
 			Threads: func(v *vShard, l *c04Log) map[string]func() {
 				return map[string]func(){
 					"1drop":   func() { l.drop(v, "m") },
+					"2reader": func() { l.dump(v); l.dump(v) },
+					"3writer": func() { l.write(v, 10, c04Gen("Wc", 10)) },
+				}
+			}},
+		// DropMeasurement(m2) || reader(m) || writer(m): dropping ANOTHER measurement (which flushes the whole memtable)
+		// must not cost m anything - the full oracle applies to m
+		c04Scenario{Name: "S8b_dropother_read_write", Preload: []string{"Wg", "We", "F", "Wa"},
+			Seam: &c04Seam{FreeQuick: 1, FreeDeep: 2},
+			Threads: func(v *vShard, l *c04Log) map[string]func() {
+				return map[string]func(){
+					"1drop":   func() { l.drop(v, "m2") },
 					"2reader": func() { l.dump(v); l.dump(v) },
 					"3writer": func() { l.write(v, 10, c04Gen("Wc", 10)) },
 				}
@@ -137,5 +151,6 @@ func init() {
 					"2reader":      func() { l.dump(v); l.dump(v) },
 				}
 			}},
-	)
+	}
+	c04Scenarios = append(added, c04Scenarios...)
 }
